@@ -132,3 +132,44 @@ pub fn find_iter_at<'s, 'h>(
 ) -> FindIter<'s, 'h> {
     FindIter { searcher, haystack, span }
 }
+
+/// `Searcher::find_in` for the 256-bit Teddy variants without the trait
+/// object (see the note in the teddy builder hook): the vector path is called
+/// on the concrete implementation; spans shorter than its minimum length are
+/// outside this entry point (the Rabin-Karp fallback has its own harnesses)
+/// and yield `Err(minimum_len)`.
+#[cfg(all(target_arch = "x86_64", target_feature = "sse2"))]
+pub fn avx2_find_in(
+    kind: u8,
+    by_id: Vec<Vec<u8>>,
+    order: &'static [u32],
+    patterns_minimum_len: usize,
+    teddy_variant: u8,
+    teddy_bytes: usize,
+    teddy_buckets: &'static [&'static [u32]; 8],
+    teddy_masks: &'static [([u8; 16], [u8; 16])],
+    teddy_buckets256: &'static [&'static [u32]; 16],
+    teddy_masks256: &'static [([u8; 32], [u8; 32])],
+    haystack: &[u8],
+    span: Span,
+) -> Result<Option<Match>, usize> {
+    use crate::packed::teddy::verif::builder::x86;
+    let patterns =
+        Arc::new(pv::from_parts(kind, by_id, order, patterns_minimum_len));
+    let hay = &haystack[..span.end];
+    let at = span.start;
+    let (min, r) = match (teddy_variant, teddy_bytes) {
+        (1, 1) => x86::slim_avx2_find_1(patterns, teddy_buckets, teddy_masks, teddy_buckets256, teddy_masks256, hay, at),
+        (1, 2) => x86::slim_avx2_find_2(patterns, teddy_buckets, teddy_masks, teddy_buckets256, teddy_masks256, hay, at),
+        (1, 3) => x86::slim_avx2_find_3(patterns, teddy_buckets, teddy_masks, teddy_buckets256, teddy_masks256, hay, at),
+        (1, _) => x86::slim_avx2_find_4(patterns, teddy_buckets, teddy_masks, teddy_buckets256, teddy_masks256, hay, at),
+        (_, 1) => x86::fat_avx2_find_1(patterns, teddy_buckets256, teddy_masks256, hay, at),
+        (_, 2) => x86::fat_avx2_find_2(patterns, teddy_buckets256, teddy_masks256, hay, at),
+        (_, 3) => x86::fat_avx2_find_3(patterns, teddy_buckets256, teddy_masks256, hay, at),
+        (_, _) => x86::fat_avx2_find_4(patterns, teddy_buckets256, teddy_masks256, hay, at),
+    };
+    if hay.len() - at < min {
+        return Err(min);
+    }
+    Ok(r)
+}
